@@ -578,6 +578,11 @@ func (op *ShellOperator) taskHandleHookRun(t task.Task) queue.TaskResult {
 				if len(combineResult.MonitorIDs) > 0 {
 					hookMeta.MonitorIDs = combineResult.MonitorIDs
 				}
+				// Contexts of a binding that does not allow failure were merged in: the combined
+				// run must be retried on failure even if the head task's binding allows failure.
+				if combineResult.DisallowFailure {
+					hookMeta.AllowFailure = false
+				}
 				t.UpdateMetadata(hookMeta)
 			}
 		}
@@ -763,6 +768,9 @@ func (op *ShellOperator) CombineBindingContextForHook(q *queue.TaskQueue, t task
 		tskMonitorIDs := tsk.GetMetadata().(task_metadata.MonitorIDAccessor).GetMonitorIDs()
 		if len(tskMonitorIDs) > 0 {
 			monitorIDs = append(monitorIDs, tskMonitorIDs...)
+		}
+		if af, ok := tsk.GetMetadata().(task_metadata.AllowFailureAccessor); ok && !af.GetAllowFailure() {
+			res.DisallowFailure = true
 		}
 		tasksFilter[tsk.GetId()] = false
 	}
